@@ -112,19 +112,20 @@ func vc17SortedSet(s map[uint64]bool) []uint64 {
 }
 
 // vc17Load creates index `index` (existence tracking on) with fields s, t (set, ranked cache) and v (int) and writes
-// the data with PQL Set through node m (which forwards to every owner).
-func vc17Load(t vs1T, m *test.Command, index string, d *vc17Data) {
+// the data with PQL Set through node m (which forwards to every owner). A schema error is returned (not fatal):
+// the callers decide what a failed set-up means.
+func vc17Load(t vs1T, m *test.Command, index string, d *vc17Data) error {
 	ctx := context.Background()
 	if _, err := m.API.CreateIndex(ctx, index, pilosa.IndexOptions{TrackExistence: true}); err != nil {
-		t.Fatalf("creating index %s: %v", index, err)
+		return fmt.Errorf("creating index %s: %v", index, err)
 	}
 	for _, f := range []string{"s", "t"} {
 		if _, err := m.API.CreateField(ctx, index, f, pilosa.OptFieldTypeSet(pilosa.CacheTypeRanked, 1000)); err != nil {
-			t.Fatalf("creating field %s: %v", f, err)
+			return fmt.Errorf("creating field %s: %v", f, err)
 		}
 	}
 	if _, err := m.API.CreateField(ctx, index, "v", pilosa.OptFieldTypeInt(vc17VMin, vc17VMax)); err != nil {
-		t.Fatalf("creating field v: %v", err)
+		return fmt.Errorf("creating field v: %v", err)
 	}
 	var calls []string
 	for name, mm := range map[string]map[uint64]map[uint64]bool{"s": d.S, "t": d.T} {
@@ -149,6 +150,7 @@ func vc17Load(t vs1T, m *test.Command, index string, d *vc17Data) {
 	}
 	sort.Strings(calls) // map iteration order of s/t must not matter
 	vs1Batch(t, m, index, calls, nil, 40)
+	return nil
 }
 
 // ------------------------------------------------------------------ bitmap expressions
